@@ -728,6 +728,15 @@ func prefill(ts *typeSpec, v reflect.Value, doc *gt.Node, seed int) {
 			fv.Set(reflect.ValueOf([]int{-1}))
 		case f.Kind == "mss" && (!supplied || suppliedMap):
 			fv.Set(reflect.ValueOf(map[string]string{"pre": "p"}))
+		case f.Kind == "structs":
+			// a slice that was used before and truncated for re-use (`x.Items = x.Items[:0]`): no elements,
+			// spare capacity, and the old elements still sitting in the backing array behind its length -
+			// the items a document supplies are new items, built from nothing
+			stale := reflect.MakeSlice(fv.Type(), 3, 3)
+			for j := 0; j < 3; j++ {
+				prefill(f.Sub, stale.Index(j), nil, seed+11+j)
+			}
+			fv.Set(stale.Slice(0, 0))
 		case f.Kind == "struct":
 			var sub *gt.Node
 			if doc != nil {
